@@ -34,7 +34,7 @@ Reasons(e) ==
     THEN (IF e.written /\ e.rcode = 1 THEN {} ELSE {"malformed ECS option not answered with FORMERR"})
          \cup (IF e.fwd = "none" THEN {} ELSE {"malformed ECS option reached the upstream"})
     ELSE
-      (IF e.written /\ e.rcode = 0 THEN {} ELSE {"not answered NOERROR"})
+      (IF e.written /\ e.rcode = e.exprc THEN {} ELSE {"not answered with the upstream's rcode for this name"})
       \cup (IF e.fwd = "none" \/ e.fwd \in Allowed(e) THEN {}
             ELSE {"subnet sent upstream is not the coarse subnet of the location (or the zero prefix when opted out)"})
       \cup (IF e.fwd = "none" \/ e.fwdscope = 0 THEN {} ELSE {"non-zero scope sent upstream"})
